@@ -5,17 +5,17 @@ import sys, subprocess, re
 out, header = sys.argv[1], open(sys.argv[2]).read()
 pairs = [a.split('=') for a in sys.argv[3:]]
 imports = re.search(r'^(From Verif Require Import [^.]*\.)', header, re.M).group(1)
-src = imports + '\nSet Printing Width 100.\n' + ''.join('Check %s.\n' % l for _, l in pairs)
+src = imports + '\nSet Printing Width 100.\n' + ''.join('Check @%s.\n' % l for _, l in pairs)
 p = subprocess.run(['coqtop', '-Q', 'lib', 'Verif', '-Q', 'model', 'Verif', '-Q', 'gen', 'Verif', '-Q', 'proofs', 'Verif', '-quiet'],
                    input=src, capture_output=True, text=True, cwd='/verif/coq')
 txt = p.stdout
 body = header.rstrip() + '\n\n'
 for name, lemma in pairs:
     short = lemma.split('.')[-1]
-    m = re.search(r'^(?:Coq < )*' + re.escape(short) + r'\n\s+: (.*?)(?=\n\S|\n\n|\Z)', txt, re.S | re.M)
+    m = re.search(r'^(?:Coq < )*@?' + re.escape(short) + r'\n\s+: (.*?)(?=\n\S|\n\n|\Z)', txt, re.S | re.M)
     if not m:
         sys.exit('no type for ' + lemma + '\n' + txt[-2000:])
     ty = m.group(1)
     ty = '\n'.join('  ' + l.strip() if i else l.strip() for i, l in enumerate(ty.splitlines()))
-    body += 'Theorem %s :\n  %s.\nProof. exact %s. Qed.\nPrint Assumptions %s.\n\n' % (name, ty, lemma, name)
+    body += 'Theorem %s :\n  %s.\nProof. exact (@%s). Qed.\nPrint Assumptions %s.\n\n' % (name, ty, lemma, name)
 open(out, 'w').write(body)
